@@ -1,4 +1,5 @@
 import Dmn.Lemmas.EvalM
+import Dmn.Lemmas.Ops
 import Dmn.Props.C13
 
 /-!
@@ -89,34 +90,149 @@ theorem index_spec (values : List Value) (n : Nat) (h : 1 ≤ n ∧ n ≤ values
   congr 2
   omega
 
-/-- The code's index rule agrees with the specification whenever the index has exponent 0
-(`is_integer`) and fits `usize` — the guard that `[..][5 + 5]` (= `1E+1`) fails. -/
-theorem index_code_eq_spec_partial (values : List Value) (n : Nat) (h : n < 2 ^ 64) :
-    Variant.code.index values (Dec.ofNat n) = Variant.spec.index values (Dec.ofNat n) := by
-  simp only [Variant.code, Variant.spec, filterIndex, Dec.isInteger, Dec.ofNat, Dec.isNegative,
-    Dec.toUsize?, Dec.toInt?, Dec.scoeff]
-  simp only [beq_self_eq_true, if_true, Bool.false_and, Bool.not_false, Int.toNat_zero,
-    Nat.pow_zero, Nat.mul_one, h, Bool.false_eq_true, if_false, Int.pow_zero, Int.mul_one, ge_iff_le,
-    Int.le_refl]
-  have h0 : ¬ ((0 : Int) < 0) := by omega
-  simp only [h0, if_false]
-  by_cases h1 : n > 0 ∧ n ≤ values.length
-  · have h' : (1 : Int) ≤ (n : Int) ∧ (n : Int) ≤ (values.length : Int) := by omega
-    rw [if_pos h1, if_pos h']
-    congr 2
-    omega
-  · have h' : ¬ ((1 : Int) ≤ (n : Int) ∧ (n : Int) ≤ (values.length : Int)) := by omega
-    have h2 : ¬ (-(values.length : Int) ≤ (n : Int) ∧ (n : Int) ≤ -1) := by omega
-    rw [if_neg h1, if_neg h', if_neg h2]
+theorem Dec.cmp_self (d : Dec) : Dec.cmp d d = .eq := by
+  simp only [Dec.cmp, Dec.align]
+  exact Std.ReflCmp.compare_self
 
-/-- FULL STATEMENT (not provable of the current code, finding F19): for every number `d`
-with an integral value, `Variant.code.index values d = Variant.spec.index values d`.
-Counterexample: the reduced result of `5 + 5`. -/
-theorem index_code_counterexample :
+/-- truncation leaves the value unchanged exactly when there are no fraction digits -/
+theorem Dec.trunc_cmp_eq (d : Dec) (h : d.exp < 0) :
+    (Dec.cmp (Dec.trunc d) d == .eq) = (d.coeff % 10 ^ (-d.exp).toNat == 0) := by
+  have hk : ¬ d.exp ≥ 0 := by omega
+  simp only [Dec.trunc, hk, if_false, Dec.cmp, Dec.align, Dec.scoeff]
+  have hmin : min (0 : Int) d.exp = d.exp := by omega
+  simp only [hmin, Int.sub_self, Int.toNat_zero, Int.pow_zero, Int.mul_one]
+  have he : (0 - d.exp).toNat = (-d.exp).toNat := by congr 1; omega
+  rw [he]
+  generalize (-d.exp).toNat = k
+  have hp : 0 < 10 ^ k := Nat.pow_pos (by decide)
+  generalize hq : 10 ^ k = p at hp
+  have hdm := Nat.div_add_mod d.coeff p
+  have hml : d.coeff % p < p := Nat.mod_lt _ hp
+  have hcast : ((10 : Int) ^ k) = (p : Int) := by rw [← hq]; simp
+  rw [hcast]
+  rw [Bool.eq_iff_iff]
+  simp only [beq_iff_eq, Dmn.Int.compare_eq_iff']
+  generalize hqq : d.coeff / p = q at hdm
+  have hmul : p * q = q * p := Nat.mul_comm _ _
+  have hint : ((q : Int) * (p : Int)) = ((q * p : Nat) : Int) := by simp
+  cases d.neg
+  · simp only [Bool.false_eq_true, if_false]
+    rw [hint]
+    constructor
+    · intro h1; have : q * p = d.coeff := by exact_mod_cast h1
+      omega
+    · intro h1; have : q * p = d.coeff := by omega
+      exact_mod_cast this
+  · simp only [if_true]
+    rw [Int.neg_mul, hint]
+    constructor
+    · intro h1; have : q * p = d.coeff := by
+        have := Int.neg_inj.mp h1
+        exact_mod_cast this
+      omega
+    · intro h1; have : q * p = d.coeff := by omega
+      rw [this]
+
+/-- **The filter index rule of the code is the semantic one** — for every number and every
+list (shorter than `usize::MAX`): an index is any number with an integral value, 1-based from
+the front, negative from the end, null outside. -/
+theorem index_code_eq_spec (values : List Value) (d : Dec) (hlen : values.length < 2 ^ 64) :
+    Variant.code.index values d = Variant.spec.index values d := by
+  simp only [Variant.code, Variant.spec, filterIndex]
+  by_cases he : d.exp ≥ 0
+  · -- no fraction digits: the number is its own truncation
+    have ht : Dec.trunc d = d := by simp [Dec.trunc, he]
+    rw [ht, Dec.cmp_self]
+    simp only [beq_self_eq_true, if_true, Dec.toInt?, he, Dec.isNegative, Dec.toUsize?, Dec.abs, Dec.scoeff]
+    have hne : ¬ d.exp < 0 := by omega
+    simp only [hne, if_false]
+    obtain ⟨V, hV⟩ : ∃ V, d.coeff * 10 ^ d.exp.toNat = V := ⟨_, rfl⟩
+    have hcast : ((d.coeff : Int) * (10 : Int) ^ d.exp.toNat) = (V : Int) := by
+      rw [← hV]; simp
+    cases hneg : d.neg
+    · simp only [Bool.false_and, Bool.not_false, if_true, Bool.false_eq_true, if_false, hcast, hV]
+      by_cases hv : V < 2 ^ 64
+      · simp only [hv, if_true]
+        by_cases h1 : V > 0 ∧ V ≤ values.length
+        · have h' : (1 : Int) ≤ (V : Int) ∧ (V : Int) ≤ (values.length : Int) := by omega
+          rw [if_pos h1, if_pos h']; congr 2; omega
+        · have h' : ¬ ((1 : Int) ≤ (V : Int) ∧ (V : Int) ≤ (values.length : Int)) := by omega
+          have h2 : ¬ (-(values.length : Int) ≤ (V : Int) ∧ (V : Int) ≤ -1) := by omega
+          rw [if_neg h1, if_neg h', if_neg h2]
+      · simp only [hv, if_false]
+        have h' : ¬ ((1 : Int) ≤ (V : Int) ∧ (V : Int) ≤ (values.length : Int)) := by omega
+        have h2 : ¬ (-(values.length : Int) ≤ (V : Int) ∧ (V : Int) ≤ -1) := by omega
+        rw [if_neg h', if_neg h2]
+    · simp only [Bool.true_and, if_true, Int.neg_mul, hcast, hV]
+      by_cases hc : d.coeff = 0
+      · have hV0 : V = 0 := by rw [← hV, hc]; simp
+        subst hV0
+        simp [hc]
+      · have hcb : (d.coeff != 0) = true := by simpa using hc
+        have hVpos : V > 0 := by
+          rw [← hV]; exact Nat.mul_pos (Nat.pos_of_ne_zero hc) (Nat.pow_pos (by decide))
+        simp only [hcb, Bool.not_true, Bool.false_eq_true, if_false]
+        by_cases hv : V < 2 ^ 64
+        · simp only [hv, if_true]
+          have h' : ¬ ((1 : Int) ≤ -(V : Int) ∧ -(V : Int) ≤ (values.length : Int)) := by omega
+          by_cases h1 : V > 0 ∧ V ≤ values.length
+          · have h2 : (-(values.length : Int) ≤ -(V : Int) ∧ -(V : Int) ≤ -1) := by omega
+            rw [if_pos h1, if_neg h', if_pos h2]; congr 2; omega
+          · have h2 : ¬ (-(values.length : Int) ≤ -(V : Int) ∧ -(V : Int) ≤ -1) := by omega
+            rw [if_neg h1, if_neg h', if_neg h2]
+        · simp only [hv, if_false]
+          have h' : ¬ ((1 : Int) ≤ -(V : Int) ∧ -(V : Int) ≤ (values.length : Int)) := by omega
+          have h2 : ¬ (-(values.length : Int) ≤ -(V : Int) ∧ -(V : Int) ≤ -1) := by omega
+          rw [if_neg h', if_neg h2]
+  · -- fraction digits: integral exactly when they are all zero
+    have hlt : d.exp < 0 := by omega
+    rw [Dec.trunc_cmp_eq d hlt]
+    simp only [Dec.toInt?, he, if_false]
+    by_cases hm : d.coeff % 10 ^ (-d.exp).toNat = 0
+    · have hmb : (d.coeff % 10 ^ (-d.exp).toNat == 0) = true := by simpa using hm
+      simp only [hmb, if_true, Dec.trunc, he, if_false, Dec.isNegative, Dec.toUsize?, Dec.abs]
+      obtain ⟨V, hV⟩ : ∃ V, d.coeff / 10 ^ (-d.exp).toNat = V := ⟨_, rfl⟩
+      simp only [hV]
+      have h00 : ¬ ((0 : Int) < 0) := by omega
+      simp only [h00, if_false, Int.toNat_zero, Nat.pow_zero, Nat.mul_one]
+      cases hneg : d.neg
+      · simp only [Bool.false_and, Bool.not_false, if_true, Bool.false_eq_true, if_false]
+        by_cases hv : V < 2 ^ 64
+        · simp only [hv, if_true]
+          by_cases h1 : V > 0 ∧ V ≤ values.length
+          · have h' : (1 : Int) ≤ (V : Int) ∧ (V : Int) ≤ (values.length : Int) := by omega
+            rw [if_pos h1, if_pos h']; congr 2; omega
+          · have h' : ¬ ((1 : Int) ≤ (V : Int) ∧ (V : Int) ≤ (values.length : Int)) := by omega
+            have h2 : ¬ (-(values.length : Int) ≤ (V : Int) ∧ (V : Int) ≤ -1) := by omega
+            rw [if_neg h1, if_neg h', if_neg h2]
+        · simp only [hv, if_false]
+          have h' : ¬ ((1 : Int) ≤ (V : Int) ∧ (V : Int) ≤ (values.length : Int)) := by omega
+          have h2 : ¬ (-(values.length : Int) ≤ (V : Int) ∧ (V : Int) ≤ -1) := by omega
+          rw [if_neg h', if_neg h2]
+      · simp only [Bool.true_and, if_true]
+        by_cases hc : V = 0
+        · subst hc; simp
+        · have hcb : (V != 0) = true := by simpa using hc
+          have hVpos : V > 0 := Nat.pos_of_ne_zero hc
+          simp only [hcb, Bool.not_true, Bool.false_eq_true, if_false]
+          by_cases hv : V < 2 ^ 64
+          · simp only [hv, if_true]
+            have h' : ¬ ((1 : Int) ≤ -(V : Int) ∧ -(V : Int) ≤ (values.length : Int)) := by omega
+            by_cases h1 : V > 0 ∧ V ≤ values.length
+            · have h2 : (-(values.length : Int) ≤ -(V : Int) ∧ -(V : Int) ≤ -1) := by omega
+              rw [if_pos h1, if_neg h', if_pos h2]; congr 2; omega
+            · have h2 : ¬ (-(values.length : Int) ≤ -(V : Int) ∧ -(V : Int) ≤ -1) := by omega
+              rw [if_neg h1, if_neg h', if_neg h2]
+          · simp only [hv, if_false]
+            have h' : ¬ ((1 : Int) ≤ -(V : Int) ∧ -(V : Int) ≤ (values.length : Int)) := by omega
+            have h2 : ¬ (-(values.length : Int) ≤ -(V : Int) ∧ -(V : Int) ≤ -1) := by omega
+            rw [if_neg h', if_neg h2]
+    · have hmb : (d.coeff % 10 ^ (-d.exp).toNat == 0) = false := by simpa using hm
+      simp [hmb]
+
+/-- The repaired case: `5 + 5` is `1E+1`; it selects the tenth element. -/
+example :
     Variant.code.index [.null, .null, .null, .null, .null, .null, .null, .null, .null, .bool true]
-        ⟨false, 1, 1⟩ = .null ∧
-    Variant.spec.index [.null, .null, .null, .null, .null, .null, .null, .null, .null, .bool true]
-        ⟨false, 1, 1⟩ = .bool true := by
-  constructor <;> rfl
+        ⟨false, 1, 1⟩ = .bool true := by rfl
 
 end Dmn.Eval
